@@ -209,3 +209,44 @@ func VerifWriterSticky() {
 	w.Stop()
 	verifReach("end")
 }
+
+
+// VerifWriterBigBatch: more queued writes than the writer's batch buffer
+// (1024) ahead of a sync request: the sync must still come after all of them.
+func VerifWriterBigBatch() {
+	target := &recTarget{failAt: -1}
+	w := &writer{}
+	w.Init(target, verifPageSize, SyncDefault)
+	go w.Run()
+	ws := newTxWriteSync()
+	n := 1024 + 1 + verifChoose(3)*500
+	buf := make([]byte, 8)
+	buf[0] = 1
+	for k := 0; k < n; k++ {
+		w.Schedule(ws, PageID(2+k), buf)
+	}
+	w.Sync(ws, syncDataOnly)
+	hdr := make([]byte, 8)
+	hdr[0] = 2
+	w.Schedule(ws, 1, hdr)
+	w.Sync(ws, syncDataOnly|syncResetErr)
+	verifAssert(ws.Wait() == nil, "no failure injected: Wait returns nil")
+	w.Stop()
+	seen := 0
+	syncs := 0
+	for _, op := range target.log {
+		if op.isSync {
+			if syncs == 0 {
+				verifAssert(seen == n, "the first sync is issued after every write scheduled before it, however many there are")
+			}
+			syncs++
+			continue
+		}
+		if op.mark == 2 {
+			verifAssert(syncs == 1, "the header write is issued after the data sync")
+		}
+		seen++
+	}
+	verifAssert(syncs == 2 && seen == n+1, "every write and every sync is issued once")
+	verifReach("end")
+}
